@@ -63,3 +63,124 @@ pub proof fn lemma_commit_final_empty(p: spec_fn(Operation) -> bool, s0: TxnView
 }
 /// the stored working set is in the shape every writer leaves it in: index 0 blank, no task twice, no trailing blanks
 pub open spec fn ws_ok(v: TxnView) -> bool { ws_wf2(v.ws) && ws_trim(v.ws) == v.ws }
+// ---- expiration (C20) ------------------------------------------------------------------------------------------------------
+/// "Tasks are eligible for expiration when they have status Deleted and have not been modified for 180 days": `cut` is the
+/// nanosecond count of now - 180 days; a `modified` value that is missing, not an integer, or outside the calendar range keeps the task
+#[verifier::opaque]
+pub open spec fn expired(tm: TaskMapS, cut: int) -> bool {
+    &&& tm.dom().contains("status"@) && tm["status"@] == "deleted"@
+    &&& tm.dom().contains("modified"@)
+    &&& parse_spec::<i64>(tm["modified"@]) matches Some(secs) && CHRONO_MIN_SECS <= secs <= CHRONO_MAX_SECS && secs * 1_000_000_000 < cut
+}
+pub open spec fn expiry_cut() -> int { the_clock() - 180 * 86400 * 1_000_000_000 }
+/// a Delete of a stored, expired task that carries the task's whole content
+pub open spec fn sel_delete(op: Operation, tasks: State, cut: int) -> bool {
+    op matches Operation::Delete { uuid, old_task } && tasks.dom().contains(uuid) && old_task@ == tasks[uuid] && expired(tasks[uuid], cut)
+}
+/// the purge: one Delete (carrying the whole old task) per expired task, nothing else
+pub open spec fn expire_sel(tasks: State, cut: int, ops: Seq<Operation>) -> bool {
+    &&& forall|k: int| 0 <= k < ops.len() ==> sel_delete(#[trigger] ops[k], tasks, cut)
+    &&& forall|u: Uuid| tasks.dom().contains(u) && expired(tasks[u], cut) ==> exists|k: int| 0 <= k < ops.len() && op_uuid(#[trigger] ops[k]) == Some(u)
+    &&& forall|k1: int, k2: int| 0 <= k1 < k2 < ops.len() ==> op_uuid(#[trigger] ops[k1]) != op_uuid(#[trigger] ops[k2])
+}
+/// Replica::all_task_data: one TaskData per stored task, holding its uuid and content
+pub open spec fn all_data(m: Map<Uuid, TaskData>, tasks: State) -> bool {
+    m.dom() =~= tasks.dom() && forall|u: Uuid| m.dom().contains(u) ==> (#[trigger] m[u]).uuid == u && m[u].taskmap@ == tasks[u]
+}
+pub open spec fn data_has(m: Map<Uuid, TaskData>, u: Uuid) -> bool { m.dom().contains(u) }
+pub open spec fn data_upto(m: Map<Uuid, TaskData>, lst: Seq<(Uuid, TaskMap)>, n: int, tasks: State) -> bool {
+    &&& forall|u: Uuid| m.dom().contains(u) <==> exists|j: int| 0 <= j < n && #[trigger] lst[j].0 == u
+    &&& forall|u: Uuid| m.dom().contains(u) ==> (#[trigger] m[u]).uuid == u && m[u].taskmap@ == tasks[u]
+}
+/// what `drain_hashmap(&mut all_task_data()?)` yields: every stored task once, as (uuid, TaskData holding uuid and content)
+pub open spec fn drained_data(d: Seq<(Uuid, TaskData)>, tasks: State) -> bool {
+    &&& forall|j: int| 0 <= j < d.len() ==> tasks.dom().contains((#[trigger] d[j]).0) && d[j].1.uuid == d[j].0 && d[j].1.taskmap@ == tasks[d[j].0]
+    &&& forall|u: Uuid| tasks.dom().contains(u) ==> exists|j: int| 0 <= j < d.len() && (#[trigger] d[j]).0 == u
+    &&& forall|i: int, j: int| 0 <= i < j < d.len() ==> (#[trigger] d[i]).0 != (#[trigger] d[j]).0
+}
+/// loop invariant of expire_tasks after n entries: one accurate Delete per expired entry so far, nothing else
+pub open spec fn eu_sound(tasks: State, cut: int, ops: Seq<Operation>) -> bool {
+    forall|k: int| 0 <= k < ops.len() ==> sel_delete(#[trigger] ops[k], tasks, cut)
+}
+pub open spec fn eu_from(d: Seq<(Uuid, TaskData)>, n: int, ops: Seq<Operation>) -> bool {
+    forall|k: int| 0 <= k < ops.len() ==> exists|j: int| 0 <= j < n && op_uuid(#[trigger] ops[k]) == Some(d[j].0)
+}
+pub open spec fn eu_complete(d: Seq<(Uuid, TaskData)>, n: int, tasks: State, cut: int, ops: Seq<Operation>) -> bool {
+    forall|j: int| 0 <= j < n && expired(tasks[(#[trigger] d[j]).0], cut) ==> exists|k: int| 0 <= k < ops.len() && op_uuid(#[trigger] ops[k]) == Some(d[j].0)
+}
+pub open spec fn eu_distinct(ops: Seq<Operation>) -> bool {
+    forall|k1: int, k2: int| 0 <= k1 < k2 < ops.len() ==> op_uuid(#[trigger] ops[k1]) != op_uuid(#[trigger] ops[k2])
+}
+pub open spec fn expire_upto(d: Seq<(Uuid, TaskData)>, n: int, tasks: State, cut: int, ops: Seq<Operation>) -> bool {
+    0 <= n <= d.len() && eu_sound(tasks, cut, ops) && eu_from(d, n, ops) && eu_complete(d, n, tasks, cut, ops) && eu_distinct(ops)
+}
+pub proof fn lemma_expire_skip(d: Seq<(Uuid, TaskData)>, k: int, tasks: State, cut: int, ops: Seq<Operation>)
+    requires drained_data(d, tasks), expire_upto(d, k, tasks, cut, ops), 0 <= k < d.len(), !expired(tasks[d[k].0], cut)
+    ensures expire_upto(d, k + 1, tasks, cut, ops)
+{
+    assert(eu_from(d, k + 1, ops)) by {
+        assert forall|q: int| 0 <= q < ops.len() implies exists|j: int| 0 <= j < k + 1 && op_uuid(#[trigger] ops[q]) == Some(d[j].0) by {
+            let j = choose|j: int| 0 <= j < k && op_uuid(ops[q]) == Some(d[j].0);
+        }
+    }
+}
+proof fn lemma_es_sound(tasks: State, cut: int, ops: Seq<Operation>, op: Operation)
+    requires eu_sound(tasks, cut, ops), sel_delete(op, tasks, cut)
+    ensures eu_sound(tasks, cut, ops.push(op))
+{
+    let o2 = ops.push(op);
+    assert forall|q: int| 0 <= q < o2.len() implies sel_delete(#[trigger] o2[q], tasks, cut) by { if q < ops.len() { assert(o2[q] == ops[q]); } }
+}
+proof fn lemma_es_from(d: Seq<(Uuid, TaskData)>, k: int, ops: Seq<Operation>, op: Operation)
+    requires eu_from(d, k, ops), 0 <= k < d.len(), op_uuid(op) == Some(d[k].0)
+    ensures eu_from(d, k + 1, ops.push(op))
+{
+    let o2 = ops.push(op);
+    assert forall|q: int| 0 <= q < o2.len() implies exists|j: int| 0 <= j < k + 1 && op_uuid(#[trigger] o2[q]) == Some(d[j].0) by {
+        if q < ops.len() { assert(o2[q] == ops[q]); let j = choose|j: int| 0 <= j < k && op_uuid(ops[q]) == Some(d[j].0); } else { assert(op_uuid(o2[q]) == Some(d[k].0)); }
+    }
+}
+proof fn lemma_es_complete(d: Seq<(Uuid, TaskData)>, k: int, tasks: State, cut: int, ops: Seq<Operation>, op: Operation)
+    requires eu_complete(d, k, tasks, cut, ops), 0 <= k < d.len(), op_uuid(op) == Some(d[k].0)
+    ensures eu_complete(d, k + 1, tasks, cut, ops.push(op))
+{
+    let o2 = ops.push(op);
+    assert forall|j: int| 0 <= j < k + 1 && expired(tasks[(#[trigger] d[j]).0], cut) implies exists|q: int| 0 <= q < o2.len() && op_uuid(#[trigger] o2[q]) == Some(d[j].0) by {
+        if j < k { let q = choose|q: int| 0 <= q < ops.len() && op_uuid(#[trigger] ops[q]) == Some(d[j].0); assert(o2[q] == ops[q]); }
+        else { assert(op_uuid(o2[ops.len() as int]) == Some(d[k].0)); }
+    }
+}
+proof fn lemma_es_distinct(d: Seq<(Uuid, TaskData)>, k: int, tasks: State, ops: Seq<Operation>, op: Operation)
+    requires drained_data(d, tasks), eu_from(d, k, ops), eu_distinct(ops), 0 <= k < d.len(), op_uuid(op) == Some(d[k].0)
+    ensures eu_distinct(ops.push(op))
+{
+    let o2 = ops.push(op);
+    assert forall|k1: int, k2: int| 0 <= k1 < k2 < o2.len() implies op_uuid(#[trigger] o2[k1]) != op_uuid(#[trigger] o2[k2]) by {
+        assert(o2[k1] == ops[k1]);
+        if k2 < ops.len() { assert(o2[k2] == ops[k2]); } else {
+            let j = choose|j: int| 0 <= j < k && op_uuid(ops[k1]) == Some(d[j].0);
+            assert(d[j].0 != d[k].0);
+        }
+    }
+}
+pub proof fn lemma_expire_step(d: Seq<(Uuid, TaskData)>, k: int, tasks: State, cut: int, ops: Seq<Operation>, op: Operation)
+    requires drained_data(d, tasks), expire_upto(d, k, tasks, cut, ops), 0 <= k < d.len(), expired(tasks[d[k].0], cut),
+        op matches Operation::Delete { uuid, old_task } && uuid == d[k].0 && old_task@ == tasks[d[k].0],
+    ensures expire_upto(d, k + 1, tasks, cut, ops.push(op))
+{
+    assert(sel_delete(op, tasks, cut));
+    assert(op_uuid(op) == Some(d[k].0));
+    lemma_es_sound(tasks, cut, ops, op);
+    lemma_es_from(d, k, ops, op);
+    lemma_es_complete(d, k, tasks, cut, ops, op);
+    lemma_es_distinct(d, k, tasks, ops, op);
+}
+pub proof fn lemma_expire_done(d: Seq<(Uuid, TaskData)>, tasks: State, cut: int, ops: Seq<Operation>)
+    requires drained_data(d, tasks), expire_upto(d, d.len() as int, tasks, cut, ops)
+    ensures expire_sel(tasks, cut, ops)
+{
+    assert forall|u: Uuid| tasks.dom().contains(u) && expired(tasks[u], cut) implies exists|k: int| 0 <= k < ops.len() && op_uuid(#[trigger] ops[k]) == Some(u) by {
+        let j = choose|j: int| 0 <= j < d.len() && (#[trigger] d[j]).0 == u;
+        assert(expired(tasks[d[j].0], cut));
+    }
+}
